@@ -168,6 +168,8 @@ def coerce(v: V, t: T) -> V:
     if isinstance(t, TTuple) and isinstance(v.t, TTuple) and len(t.items) == len(v.t.items):
         items = [coerce(i, ti) for i, ti in zip(tuple_items(v), t.items)]
         return V(t, [z for i in items for z in i.zs])
+    if isinstance(t, TRef) and isinstance(v.t, TRef):
+        return V(t, v.zs)       # same reference under another static type (dynamic type lives in the type tag)
     if isinstance(t, TOpaque) and isinstance(v.t, TOpaque):
         raise EngineError(f"cannot coerce {v.t} to {t}")
     raise EngineError(f"cannot coerce {v.t} to {t}")
